@@ -359,7 +359,7 @@ def analyse(src: Source) -> List[Report]:
             # walker items built in one pass)
             rate = wa[1]
             same_loop = any(isinstance(lp_, ast.For) and any(x is c for x in ast.walk(lp_)) and any(x is tup[0] for x in ast.walk(lp_))
-                            and norm(lp_.target) == d for lp_ in ast.walk(ini))
+                            and d in {x.id for x in ast.walk(lp_.target) if isinstance(x, ast.Name)} for lp_ in ast.walk(ini))
             if same_loop and isinstance(rate, ast.Call) and norm(rate.func) == "max" and len(rate.args) == 2:
                 zero = [x for x in rate.args if isinstance(x, ast.Constant) and x.value == 0]
                 src_ = [x for x in rate.args if not isinstance(x, ast.Constant)]
@@ -379,73 +379,152 @@ def analyse(src: Source) -> List[Report]:
             comp_of_attr[self_attr(a.targets[0])] = comp_of_list[a.value.generators[0].iter.id]
     rep.ob("R18.4-walker-per-direction", sorted(comp_of_attr.values()) == [0, 1], Loc(CV, ini.lineno, "CellVetoEventHandler.initialize"),
            f"walker tables per direction built from bound components {comp_of_attr}", "one walker per direction for the upper (component 0) and lower (component 1) bounds")
-    # send_event_time: sign branch
-    # walker = (self.<table A>, self.<table B>)[index][direction]  (after the sign branch that sets index)
-    table_choice = None
-    for a in ast.walk(st):
-        if isinstance(a, ast.Assign) and isinstance(a.targets[0], ast.Name) and isinstance(a.value, ast.Subscript) \
-                and isinstance(a.value.value, ast.Subscript) and isinstance(a.value.value.value, (ast.Tuple, ast.List)) \
-                and len(a.value.value.value.elts) == 2 and all(self_attr(e) in comp_of_attr for e in a.value.value.value.elts) \
-                and isinstance(a.value.value.slice, ast.Name):
-            table_choice = (a.targets[0].id, a.value.value.slice.id, [self_attr(e) for e in a.value.value.value.elts], RT.text(a.value.slice))
-    branch = [n for n in ast.walk(st) if isinstance(n, ast.If) and any(isinstance(a, ast.Assign) and isinstance(a.value, ast.Subscript)
-                                                                       and self_attr(a.value.value) in comp_of_attr for a in n.body + n.orelse)]
-    if not branch and table_choice is not None:
-        branch = [n for n in ast.walk(st) if isinstance(n, ast.If) and any(isinstance(a, ast.Assign) and isinstance(a.targets[0], ast.Name)
-                                                                           and a.targets[0].id == table_choice[1] for a in n.body + n.orelse)]
+    # send_event_time under the two signs of the charge factor: abstract run of the canonical method (helpers inlined) with the
+    # charge factor positive / not positive.  Tracked values: the charge factor (as is / negated), small integer constants, the walker
+    # tables and what is taken out of them; everything else is an opaque symbol.  No variable is named by the rule.
+    def sign_run(positive: bool):
+        env: Dict[str, object] = {}
+
+        def ev(e: ast.AST):
+            if isinstance(e, ast.Constant) and isinstance(e.value, (int, float)) and not isinstance(e.value, bool):
+                return ("const", e.value)
+            if isinstance(e, ast.Name):
+                return env.get(e.id, ("sym", e.id))
+            if self_attr(e) in comp_of_attr:
+                return ("table", self_attr(e))
+            if isinstance(e, ast.Attribute):
+                cvv = const_value(prog, cv, e)
+                if isinstance(cvv, int) and not isinstance(cvv, bool):
+                    return ("const", cvv)
+            if isinstance(e, ast.Call) and norm(e.func).endswith("charge_correction_factor"):
+                return ("charge", False)
+            if isinstance(e, (ast.Tuple, ast.List)):
+                return ("tuple", tuple(ev(x) for x in e.elts))
+            if isinstance(e, ast.IfExp):
+                t = truth(e.test)
+                if t is None:
+                    raise ValueError(norm(e))
+                return ev(e.body if t else e.orelse)
+            if isinstance(e, ast.UnaryOp) and isinstance(e.op, ast.USub):
+                v = ev(e.operand)
+                if v[0] == "charge":
+                    return ("charge", not v[1])
+                if v[0] == "const":
+                    return ("const", -v[1])
+            if isinstance(e, ast.Call) and norm(e.func) == "abs" and len(e.args) == 1:
+                v = ev(e.args[0])
+                if v[0] == "charge":
+                    # |c|: the factor itself if it is positive now, else its negative
+                    now_positive = positive != v[1]
+                    return v if now_positive else ("charge", not v[1])
+            if isinstance(e, ast.BinOp) and isinstance(e.op, ast.Mult):
+                l, r = ev(e.left), ev(e.right)
+                for a, b in ((l, r), (r, l)):
+                    if a[0] == "charge" and b[0] == "const" and b[1] in (-1, -1.0, 1, 1.0):
+                        return ("charge", a[1] != (b[1] < 0))
+            if isinstance(e, ast.Subscript):
+                base = ev(e.value)
+                idx = ev(e.slice)
+                if base[0] == "tuple" and idx[0] == "const" and isinstance(idx[1], int) and 0 <= idx[1] < len(base[1]):
+                    return base[1][idx[1]]
+                if base[0] == "table":
+                    return ("walker", base[1], RT.text(e.slice))
+            return ("sym", RT.text(e))
+
+        def truth(t: ast.AST) -> Optional[bool]:
+            if isinstance(t, ast.UnaryOp) and isinstance(t.op, ast.Not):
+                v = truth(t.operand)
+                return None if v is None else not v
+            if isinstance(t, ast.Compare) and len(t.ops) == 1:
+                l, r, op = ev(t.left), ev(t.comparators[0]), t.ops[0]
+                if l[0] == "const" and r[0] == "const":
+                    return {ast.Eq: l[1] == r[1], ast.NotEq: l[1] != r[1], ast.Lt: l[1] < r[1], ast.LtE: l[1] <= r[1], ast.Gt: l[1] > r[1],
+                            ast.GtE: l[1] >= r[1]}.get(type(op))
+                for a, b, flip in ((l, r, False), (r, l, True)):
+                    if a[0] == "charge" and b[0] == "const" and b[1] == 0:
+                        # the case split is on the ORIGINAL factor: positive / not positive (zero included)
+                        o = type(op)
+                        if flip:
+                            o = {ast.Lt: ast.Gt, ast.Gt: ast.Lt, ast.LtE: ast.GtE, ast.GtE: ast.LtE}.get(o, o)
+                        if not a[1]:
+                            return {ast.Gt: positive, ast.LtE: not positive}.get(o)
+                        return {ast.Lt: positive, ast.GtE: not positive}.get(o)
+            return None
+
+        def run(stmts) -> None:
+            for x in stmts:
+                if isinstance(x, ast.Assign) and len(x.targets) == 1 and isinstance(x.targets[0], ast.Name):
+                    env[x.targets[0].id] = ev(x.value)
+                elif isinstance(x, ast.Assign) and len(x.targets) == 1 and isinstance(x.targets[0], (ast.Tuple, ast.List)) \
+                        and all(isinstance(t_, ast.Name) for t_ in x.targets[0].elts):
+                    v = ev(x.value)
+                    for k_, t_ in enumerate(x.targets[0].elts):
+                        env[t_.id] = v[1][k_] if v[0] == "tuple" and len(v[1]) == len(x.targets[0].elts) else ("sym", f"{t_.id}'")
+                elif isinstance(x, ast.AugAssign) and isinstance(x.target, ast.Name):
+                    cur = env.get(x.target.id, ("sym", x.target.id))
+                    v = ev(x.value)
+                    if cur[0] == "charge" and isinstance(x.op, ast.Mult) and v[0] == "const" and v[1] in (-1, -1.0, 1, 1.0):
+                        env[x.target.id] = ("charge", cur[1] != (v[1] < 0))
+                    else:
+                        env[x.target.id] = ("sym", f"{x.target.id}'")
+                elif isinstance(x, ast.If):
+                    t = truth(x.test)
+                    if t is None:
+                        touched = {n.id for y in x.body + x.orelse for n in ast.walk(y) if isinstance(n, ast.Name) and isinstance(n.ctx, ast.Store)}
+                        if any(env.get(n, ("sym",))[0] != "sym" for n in touched) or any(
+                                isinstance(y, (ast.Assign, ast.AugAssign)) and ev(y.value)[0] != "sym" for z in x.body + x.orelse for y in ast.walk(z)):
+                            raise ValueError(norm(x.test))
+                        continue
+                    run(x.body if t else x.orelse)
+                elif isinstance(x, (ast.For, ast.While)):
+                    for n in ast.walk(x):
+                        if isinstance(n, ast.Name) and isinstance(n.ctx, ast.Store):
+                            env[n.id] = ("sym", f"{n.id}'")
+        run(st.body)
+        return env
     okb = False
     walker_var = index_var = charge_var = dir_txt = None
-    if len(branch) == 1:
-        b = branch[0]
-
-        def facts(stmts):
-            w = [(norm(a.targets[0]), self_attr(a.value.value), RT.text(a.value.slice)) for a in stmts if isinstance(a, ast.Assign)
-                 and isinstance(a.value, ast.Subscript) and self_attr(a.value.value) in comp_of_attr]
-            if not w and table_choice is not None:
-                # the walker is looked up afterwards in (table of component 0, table of component 1)[index][direction]
-                i_ = [const_value(prog, cv, a.value) for a in stmts if isinstance(a, ast.Assign) and isinstance(a.targets[0], ast.Name)
-                      and a.targets[0].id == table_choice[1] and isinstance(const_value(prog, cv, a.value), int)]
-                if len(i_) == 1 and i_[0] in (0, 1):
-                    w = [(table_choice[0], table_choice[2][i_[0]], table_choice[3])]
-            i = [(norm(a.targets[0]), const_value(prog, cv, a.value)) for a in stmts if isinstance(a, ast.Assign) and isinstance(a.targets[0], ast.Name)
-                 and isinstance(const_value(prog, cv, a.value), int) and not isinstance(const_value(prog, cv, a.value), bool)]
-            return (w[0] if len(w) == 1 else None, i[0] if len(i) == 1 else None)
-        at = atoms(b.test)
-        sp = split_atom(at[0]) if len(at) == 1 else None
-        pos_branch = neg_branch = None
-        if sp is not None:
-            l, op, r = sp
-            try:
-                if float(l) == 0 and op == "<":              # 0 < c : body is the positive branch
-                    charge_var, pos_branch, neg_branch = r, b.body, b.orelse
-                elif float(r) == 0 and op in ("<=", "<"):    # c <= 0 : body is the non-positive branch
-                    charge_var, pos_branch, neg_branch = l, b.orelse, b.body
-            except ValueError:
-                try:
-                    if float(r) == 0 and op in ("<=", "<"):
-                        charge_var, pos_branch, neg_branch = l, b.orelse, b.body
-                except ValueError:
-                    pass
-        if pos_branch is not None:
-            (pw, pi), (nw, ni) = facts(pos_branch), facts(neg_branch)
-            if pw and pi and nw and ni and pw[0] == nw[0] and pi[0] == ni[0] and pw[2] == nw[2]:
-                walker_var, index_var, dir_txt = pw[0], pi[0], pw[2]
-                consistent = comp_of_attr[pw[1]] == pi[1] and comp_of_attr[nw[1]] == ni[1] and pi[1] == 0 and ni[1] == 1
-                flips = any((isinstance(a, ast.AugAssign) and isinstance(a.op, ast.Mult) and norm(a.target) == charge_var and norm(a.value) in ("-1.0", "-1"))
-                            or (isinstance(a, ast.Assign) and norm(a.targets[0]) == charge_var and norm(a.value) in (f"-{charge_var}", f"abs({charge_var})"))
-                            for a in neg_branch)
-                no_flip_pos = not any(isinstance(a, (ast.Assign, ast.AugAssign)) and norm(a.targets[0] if isinstance(a, ast.Assign) else a.target) == charge_var
-                                      for a in pos_branch)
-                okb = consistent and flips and no_flip_pos
-    rep.ob("R18.4-walker-and-index-together", okb, locv, branch[0].test if branch else "charge-sign branch",
+    why_sign = "the charge-sign cases could not be followed"
+    alias_of: Dict[str, str] = {}
+    try:
+        envp, envn = sign_run(True), sign_run(False)
+        names = sorted(set(envp) & set(envn))
+        cases = {n: (envp[n], envn[n]) for n in names}
+        sc_calls = [c for c in ast.walk(st) if isinstance(c, ast.Call) and isinstance(c.func, ast.Attribute) and c.func.attr == "sample_cell"
+                    and isinstance(c.func.value, ast.Name)]
+        wv = sc_calls[0].func.value.id if len(sc_calls) == 1 else None
+        if wv in cases and cases[wv][0][0] == "walker" and cases[wv][1][0] == "walker":
+            (_, ap, dp), (_, an, dn) = cases[wv]
+            walker_var, dir_txt = wv, dp
+            idx_names = [n for n in names if cases[n] == (("const", 0), ("const", 1))]
+            chg_names = [n for n in names if cases[n] == (("charge", False), ("charge", True))]
+            consistent = comp_of_attr.get(ap) == 0 and comp_of_attr.get(an) == 1 and dp == dn
+            if idx_names and chg_names:
+                index_var, charge_var = idx_names[-1], chg_names[-1]
+                for grp, rep_name in ((idx_names, index_var), (chg_names, charge_var), ([n for n in names if cases[n] == cases[wv]], walker_var)):
+                    for n in grp:
+                        alias_of[n] = rep_name
+            okb = consistent and bool(idx_names) and bool(chg_names)
+            why_sign = f"positive factor: walker of `{ap}`, index {[cases[n][0] for n in idx_names][:1]}; otherwise: walker of `{an}`, " \
+                       f"index {[cases[n][1] for n in idx_names][:1]}, factor negated: {bool(chg_names)}"
+    except ValueError as e_:
+        why_sign = f"not followed: {e_}"
+    rep.ob("R18.4-walker-and-index-together", okb, locv, why_sign,
            "for a positive charge factor the upper-bound walker goes with bound component 0, otherwise the factor is negated and the "
-           "lower-bound walker goes with component 1: walker and confirmation bound must be chosen in the same branch")
-    keep = tuple(x for x in (walker_var, index_var, charge_var) if x)
+           "lower-bound walker goes with component 1: walker and confirmation bound must be chosen by the same case")
+
+    def canon_names(txt: str) -> str:
+        import re as _re
+        for a_, r_ in sorted(alias_of.items(), key=lambda kv: -len(kv[0])):
+            if a_ != r_:
+                txt = _re.sub(r"(?<![\w@#])" + _re.escape(a_) + r"(?![\w@#])", r_, txt)
+        return txt
+    keep = tuple(sorted(set(alias_of) | {x for x in (walker_var, index_var, charge_var) if x}))
     td = [n for n in ast.walk(st) if isinstance(n, ast.BinOp) and isinstance(n.op, ast.Div) and isinstance(n.left, ast.Call)
           and norm(n.left.func) == "random.expovariate"]
     okt = False
-    if len(td) == 1 and walker_var:
-        fs = RT.factors(td[0], keep)
+    if len(td) == 1 and walker_var and charge_var and index_var:
+        fs = [canon_names(f) for f in RT.factors(td[0], keep)]
         speed = [f for f in fs if f.startswith("1/") and ".velocity[" in f]
         okt = norm(td[0].left) == "random.expovariate(setting.beta)" and len(fs) == 4 and f"1/{walker_var}.total_rate" in fs \
             and f"1/{charge_var}" in fs and len(speed) == 1 and "random.expovariate(setting.beta)" in fs
@@ -454,17 +533,26 @@ def analyse(src: Source) -> List[Report]:
     be = [a for a in ast.walk(st) if isinstance(a, ast.Assign) and self_attr(a.targets[0]) and "rate" in self_attr(a.targets[0])
           and isinstance(a.value, ast.BinOp)]
     okq = False
-    if len(be) == 1 and walker_var:
+    if len(be) == 1 and walker_var and charge_var and index_var:
         sc = [a for a in ast.walk(st) if isinstance(a, ast.Assign) and isinstance(a.targets[0], ast.Name)
-              and RT.text(a.value, keep) == f"{walker_var}.sample_cell()"]
+              and canon_names(RT.text(a.value, keep)) == f"{walker_var}.sample_cell()"]
         if len(sc) == 1:
             cellv = norm(sc[0].targets[0])
-            fs = RT.factors(be[0].value, keep + (cellv,))
+            fs = [canon_names(f) for f in RT.factors(be[0].value, keep + (cellv,))]
+            dir_here = canon_names(dir_txt or "")
             okq = sorted(fs) == sorted([charge_var, f"self.{bounds_attr}[{cellv}][{dir_txt}][{index_var}]"])
 
     rep.ob("R18.4-bound-at-sampled-cell", okq, locv, be[0] if be else "bounding event rate",
            "the confirmation bound must be the stored bound of the sampled cell, the direction of motion and the chosen component, "
            "times the charge factor")
+    from ..cell_rules import check_active_cell_level
+    check_active_cell_level(prog, rep, "R18.4-active-cell-at-cell-level")
+    from ..config_graph import ConfigGraph
+    from ..inifront import load_all
+    cache = {}
+    for cfg in load_all(prog):
+        ConfigGraph(prog, cfg, cache).explore(rep, ("C18",))
+    rep.expect_min("R18.6-veto-candidate-follows-active-cell", 1)
     from ..handler_dims import check_handler_dimensions
     check_handler_dimensions(prog, src, rep, "R18.5-handler-dimensions", lambda h: prog.is_subclass(h, 'CellVetoEventHandler'))
     rep.expect_min("R18.2-mass-conserved", 1)
@@ -496,4 +584,11 @@ MUTANTS.append(Edit("candidate time: speed on the wrong side", CV, "random.expov
 TWINS = [
     Edit("rename locals in sampling", W, "choice_from_table", "row", every=True),
     Edit("product reordered", CV, "total_rate = walker.total_rate * charge_factor", "total_rate = charge_factor * walker.total_rate"),
+]
+MUTANTS += [
+    Edit("active cell from the leaf unit instead of the unit on the cell level", CV,
+         "        active_cell = self._cells.position_to_cell(relevant_cnode.value.position)", "        active_cell = self._cells.position_to_cell(self._active_leaf_unit.position)", "R18.4"),
+    Edit("cell boundary does not renew the cell-veto candidate", "jellyfysh/config_files/2018_JCP_149_064113/coulomb_atoms/cell_veto.ini",
+         "[CellBoundary]\ncreate = coulomb_nearby, coulomb_cell_veto, cell_boundary, coulomb_surplus\ntrash = coulomb_nearby, coulomb_cell_veto, cell_boundary, coulomb_surplus",
+         "[CellBoundary]\ncreate = coulomb_nearby, cell_boundary, coulomb_surplus\ntrash = coulomb_nearby, cell_boundary, coulomb_surplus", "R18.6"),
 ]
